@@ -129,6 +129,15 @@ pub fn from_io_kind_stub(err: io::Error) -> crate::mp::Error {
     crate::mp::Error::IoError(k, String::new())
 }
 
+/// `io::Error::to_string()` without core::fmt: the message text of an I/O error is not part of any
+/// property (the kind is); used where the v5 decoders build `Error::IoError(kind, err.to_string())` by hand
+/// (Kani resolves the path to the blanket `impl<T: Display> ToString for T`, so the stub replaces every
+/// `to_string()` of the query; the decode/encode paths call it on `io::Error` only.)
+#[cfg(kani)]
+pub fn io_to_string_stub<T: std::fmt::Display + ?Sized>(_e: &T) -> String {
+    String::new()
+}
+
 /// full UTF-8 model in place of simdutf8 (unit-level harnesses)
 #[cfg(kani)]
 pub fn from_utf8_model_stub(input: &[u8]) -> Result<&str, simdutf8::basic::Utf8Error> {
